@@ -213,6 +213,26 @@ Theorem C18_written_content_is_read_back_from_its_text : forall ftab names f F' 
 Proof. intros ftab names f F' ty g tag indent c H1 H2 H3 H4 H5 H6. exact (T.ifdata_content_roundtrip ftab names f F' ty g tag indent c H1 H2 H3 H4 H5 H6). Qed.
 Print Assumptions C18_written_content_is_read_back_from_its_text.
 
+(* ... and the premise on the token texts follows from the definition: when its tags and enumeration items are identifiers
+   ([T.def_ok]) and the float texts of the oracle table are number tokens ([T.floats_wf]), every conforming value is written with
+   well-formed tokens *)
+Theorem C18_written_content_of_a_well_formed_definition_is_read_back : forall ftab names f F' ty g tag indent c,
+  T.floats_wf ftab -> T.def_ok ty -> LexUnitsProofs.ident_text tag ->
+  F.conf ftab ty g [(TEnd, end_text); (TIdentifier, tag)] -> (T.gdepth g <= f)%nat -> (ty_depth ty <= F')%nat -> c_fileid c = O ->
+  exists toks g' s',
+    tokenize_core 0 (gifd_write ftab names f g indent ++ bytes_of " /end " ++ tag) = TOk toks /\
+    parse_ifdata_item F' ty c (init_state toks false 1 ftab) = (ROk g', s') /\
+    map shape_of (ps_after s') = [(TEnd, end_text); (TIdentifier, tag)] /\ F.ev g' = F.ev g.
+Proof. intros ftab names f F' ty g tag indent c H1 H2 H3 H4 H5 H6 H7. exact (T.ifdata_content_roundtrip_of_definition ftab names f F' ty g tag indent c H1 H2 H3 H4 H5 H6 H7). Qed.
+Print Assumptions C18_written_content_of_a_well_formed_definition_is_read_back.
+
+Example C18_example_definition_is_well_formed : T.def_ok demo_spec2 /\ T.floats_wf [].
+Proof.
+  split.
+  - cbn. repeat split; first [reflexivity | discriminate | (repeat constructor; fail)].
+  - intros bits [H|H]; [unfold float_ok in H | unfold double_ok in H]; cbn [find_fentry] in H; [discriminate | rewrite andb_false_r in H; discriminate].
+Qed.
+
 (* the premises are met by the example value *)
 Example C18_text_round_trip_premises :
   (T.gdepth demo_ifd_value2 <= 6)%nat /\ (ty_depth demo_spec2 <= 5)%nat /\
